@@ -495,7 +495,56 @@ def run(ctx, rep):
                 rep.ok("C14.typename", "char " + repr(ch), {"to_final": a, "tmr": b, "to_bit_width": c})
             else:
                 rep.violation("C14.typename", "char " + repr(ch), "TypeName interpreters disagree on %r: to_final %s, tmr %s, to_bit_width %s" % (ch, a, b, c))
-        rep.floor("C14.typename", rep.instances("C14.typename"), 9)
+        # the combination rules: a sum is one tag bit more than its wider summand, a product the sum of its components
+        # (the same formulas as Final::sum / Final::product, which C03.width compares with C); the operand order of
+        # sum/product in to_final and tmr is (first popped, second popped) = (left, right)
+        import expr as ex
+        fw = F.fn("simplicity::jet::type_name::TypeName::to_bit_width")
+        if fw is not None:
+            Tw = Terms(fw)
+            Tw.site_names = {"pop"}
+            forms = set()
+            for cs in fw.calls():
+                if cs.name == "push" and fw.in_loop(cs.bb) and len(cs.args) == 2:
+                    t = Tw.operand(cs.args[1])
+                    if isinstance(t, tuple) and t[0] == "int":
+                        continue
+                    def by_site(x):
+                        if isinstance(x, tuple) and x and x[0] == "call" and x[2] in ("pop", "expect", "unwrap") and len(x) > 6 and x[2] == "pop":
+                            return ("param", 1000 + x[6][1], "pop@%d" % x[6][1])
+                        if isinstance(x, tuple):
+                            return tuple(by_site(y) if isinstance(y, tuple) else y for y in x)
+                        return x
+                    mp = ex.norm(by_site(t))
+                    pops = sorted({a for (_, atoms) in mp.terms for a in atoms})
+                    ren = {a: "x%d" % i for i, a in enumerate(pops)}
+                    forms.add(frozenset((c, tuple(sorted(ren[a] for a in atoms))) for (c, atoms) in mp.terms))
+            want = {frozenset({(1, ("x0",)), (1, ("x1",))}), frozenset({(0, ("x0", "x1"))})}
+            if forms == want:
+                rep.ok("C14.typename", "to_bit_width: sum = 1 + max(l, r), product = l + r", None)
+            else:
+                rep.violation("C14.typename", "to_bit_width:combine", "TypeName::to_bit_width combines widths as %s; a sum is 1 + max(l, r) and a product l + r "
+                              "(exec_jet sizes the C jet's frames from this)" % sorted(sorted(f_) for f_ in forms), fw.where())
+        for nm in ("to_final", "tmr"):
+            f = F.fn("simplicity::jet::type_name::TypeName::" + nm)
+            if f is None:
+                continue
+            Tf = Terms(f)
+            Tf.site_names = {"pop"}
+            for cs in f.calls():
+                if cs.name in ("sum", "product") and len(cs.args) == 2 and f.in_loop(cs.bb):
+                    sites = []
+                    for a in cs.args:
+                        ss = [c[6][1] for c in calls_in(Tf.operand(a)) if c[2] == "pop" and len(c) > 6]
+                        sites.append(ss[0] if len(ss) == 1 else None)
+                    pops = [b for b in f.rpo() if f.blocks[b]["t"]["k"] == "call" and f.blocks[b]["t"]["f"].get("name") == "pop" and f.dominates(b, cs.bb)]
+                    order = [b for b in f.rpo() if b in sites]
+                    # first argument = the value popped first (left), second = popped second (right)
+                    if None not in sites and sites[0] != sites[1] and f.dominates(sites[0], sites[1]):
+                        rep.ok("C14.typename", "%s: %s(left, right)" % (nm, cs.name), None)
+                    else:
+                        rep.violation("C14.typename", "%s:%s:order" % (nm, cs.name), "TypeName::%s builds %s with its operands not in (left, right) order" % (nm, cs.name), cs.where())
+        rep.floor("C14.typename", rep.instances("C14.typename"), 14)
 
     # ------------------------------------------------------------------ externs
     n_ext = 0
